@@ -759,9 +759,16 @@ func compactToSliceOfSlice(compact [][2]int) [][]int {
 //	process(buf)
 func (r *Regex) AppendAllIndex(dst [][2]int, b []byte, n int) [][2]int {
 	if n == 0 {
-		return nil
+		return dst
 	}
-	return r.engine.FindAllIndicesStreaming(b, n, dst)
+	if len(dst) == 0 {
+		return r.engine.FindAllIndicesStreaming(b, n, dst)
+	}
+	// The engine fills the buffer it is given from index 0: hand it the spare
+	// capacity behind dst so the existing elements are kept. When that capacity
+	// suffices the matches are already in place and append copies nothing.
+	tail := r.engine.FindAllIndicesStreaming(b, n, dst[len(dst):])
+	return append(dst, tail...)
 }
 
 // AppendAllStringIndex appends all successive match index pairs for the string
